@@ -113,7 +113,7 @@ func main() {
 	r.Rule("case = (pre-population of the working directory ∈ {absent, empty, d, ds, sub, full}: files, directories, inside-pointing symlinks only; 1..n pushes into ONE default-options file.Store: " +
 		"tar+gzip blob marked for unpacking with a sequence of regular/dir/symlink/hard-link/fifo entries, named blob, or manifest that restores a titled layer); " +
 		"phases: corpus (committed witnesses), titles (all segment sequences over {.., ., \"\", x, in, up, wd} × {relative, $WD/…, $ROOT/a/…} × {blob, archive} × {pre-populated, not yet existing working directory}), " +
-		"exh (ALL sequences over the 24-entry reduced vocabulary up to length 3 quick / 4 thorough), rand (random and corpus-mutated sequences ≤ 10 entries over the full grammar), " +
+		"exh (ALL sequences over the 25-entry reduced vocabulary up to length 3 quick / 4 thorough), rand (random and corpus-mutated sequences ≤ 10 entries over the full grammar), " +
 		"multi (all vocabulary sequences ≤ 2 quick / ≤ 3 thorough each followed by 13 follow-up pushes, then random multi-push cases); " +
 		"oracle per push: snapshot of everything in the sandbox outside the working directory (type, permission bits, size+SHA-256, link target; TMPDIR may only gain oras_file_*) is unchanged, " +
 		"and a push with a lexically-outside title / entry name / link target returns an error; " +
